@@ -22,6 +22,8 @@ CHECKS = {
              text="All external x memory type pairs, put and get, variables and attributes, CDF-1/2/5: every value of the 8- and 16-bit source types (exhaustive sub-domain) and boundary/NaN/Inf/denormal/random vectors for wider types, judged on the stored bytes (native read-back and independent decoder) resp. the returned buffer by a vectorised model cross-checked against an exact Fraction model. The ambiguity band stated in DESIGN appendix D is not judged."),
  "C15": dict(level="exploration", section="4/C15 + appendix B", technique="exhaustive enumeration of (start,count,stride) tuples on small shapes plus Hypothesis for larger shapes, reference predicate for the error code and byte-level before/after diff of the file",
              text="Every (start,count,stride) tuple within and beyond 1-2 dimensional shapes of length 1..3 (3-D sampled/thorough), all API forms incl. varn and nonblocking, strict and relaxed coordinate bounds, three formats: return code must be in the set the documented precedence allows; rejected/zero-length/read requests must leave the file byte-identical; accepted writes may change only bytes of the addressed elements (offsets from an independent decoder) and the numrecs field. exhaustive:true only for the enumerated small-shape domain."),
+ "C13": dict(level="exploration", section="4/C13", technique="property-based testing (Hypothesis) of post/wait/cancel/attach/detach/close histories with guarded buffers and an accounting model",
+             text="Generated single-process histories of blocking and nonblocking puts/gets/bputs with request sizes on both sides of the in-place-swap threshold, all swap hint settings, derived buffer datatypes, attach/detach at legal and illegal moments and every exit (return, wait, wait_all, cancel, close with pending requests): the executor compares every write buffer with its pre-call image and every read buffer's guard zones/gaps, and inq_buffer_size/usage and bput refusals are compared with an accounting model. One known finding (tail-only reclamation of the attached buffer) is matched by signature."),
 }
 NA_REASON = "check under construction in this session; not yet claimed"
 checks = []
